@@ -70,6 +70,10 @@ pub struct TextCase {
     /// (doc selector, n): that document gets n more one-word values (more than 32 (field, value) entries)
     #[serde(default)]
     pub many_values: Option<(u16, u8)>,
+    /// index sorted by a unique key (ascending?, salt of the insertion permutation): the documents are added in a
+    /// generated order and the segment writer has to remap every posting list to the sort order
+    #[serde(default)]
+    pub sorted: Option<(bool, u16)>,
 }
 
 /// tokens of a value as the analyser emits them: (text, position within the value); None = slot without token
@@ -125,14 +129,15 @@ impl Sub for Text {
             prop::collection::vec((any::<u16>(), prop::collection::vec(any::<u16>(), 1..14)), 0..8),
             prop::bool::weighted(0.4),
             prop::option::weighted(0.3, (any::<u16>(), 14u8..45)),
+            prop::option::weighted(0.3, (any::<bool>(), any::<u16>())),
         )
-            .prop_map(|(tok, record, norms, (docs, repeat), marks, heavy, seeks, aux_every, many_values)| TextCase { tok, record, norms, docs, repeat, marks, heavy, seeks, aux_every, many_values })
+            .prop_map(|(tok, record, norms, (docs, repeat), marks, heavy, seeks, aux_every, many_values, sorted)| TextCase { tok, record, norms, docs, repeat, marks, heavy, seeks, aux_every, many_values, sorted })
             .boxed()
     }
     fn mandatory_labels(&self, _t: Tier) -> Vec<&'static str> {
         vec![
             "list_len=128", "list_len=129", "list_len=127", "list_len>256", "list_len>20000", "tf>128", "term>=256B", "term=65530B", "token_dropped>MAX", "token_removed>40B", "multi_valued_positions", "empty_value",
-            "tok:default", "tok:whitespace", "tok:raw", "record:basic", "record:freqs", "record:positions", "norms_off", "docs>=20000", "seek_crosses_block", "block_api", "interleaved_fields", "doc_with>32_field_values",
+            "tok:default", "tok:whitespace", "tok:raw", "record:basic", "record:freqs", "record:positions", "norms_off", "docs>=20000", "seek_crosses_block", "block_api", "interleaved_fields", "doc_with>32_field_values", "sorted_index",
         ]
     }
     fn run(&self, c: &TextCase, cx: &Ctx) -> CaseResult {
@@ -149,7 +154,12 @@ impl Sub for Text {
         let mut sb = Schema::builder();
         let body = sb.add_text_field("body", TextOptions::default().set_indexing_options(TextFieldIndexing::default().set_tokenizer(tokenizer).set_index_option(record).set_fieldnorms(c.norms)));
         let aux = sb.add_text_field("aux", TextOptions::default().set_indexing_options(TextFieldIndexing::default().set_tokenizer("raw").set_index_option(IndexRecordOption::WithFreqsAndPositions)));
-        let index = Index::create_in_ram(sb.build());
+        let sk = sb.add_u64_field("sk", FAST);
+        let settings = tantivy::IndexSettings {
+            sort_by_field: c.sorted.map(|(asc, _)| tantivy::IndexSortByField { field: "sk".into(), order: if asc { tantivy::Order::Asc } else { tantivy::Order::Desc } }),
+            ..Default::default()
+        };
+        let index = Index::builder().schema(sb.build()).settings(settings).create_in_ram().or_fail("INFRA:create")?;
         let wr = writer(&index, WriterCfg { table_bits: 12, ..Default::default() }).or_fail("INFRA:writer")?;
         wr.set_merge_policy(Box::new(NoMergePolicy));
         let mut wr = wr;
@@ -185,8 +195,15 @@ impl Sub for Text {
         let mut model: BTreeMap<Vec<u8>, BTreeMap<u32, Vec<u32>>> = BTreeMap::new();
         let mut ntokens: Vec<u32> = vec![0; docs.len()];
         let (mut dropped_max, mut removed_40, mut multi_valued, mut empty_value) = (false, false, false, false);
+        // the model numbers the documents in sort order; with a sorted index they are *added* in a permuted order
+        let ndocs = docs.len();
+        let mut built: Vec<Option<TantivyDocument>> = Vec::with_capacity(ndocs);
         for (d, values) in docs.iter().enumerate() {
             let mut doc = TantivyDocument::new();
+            doc.add_u64(sk, match c.sorted {
+                Some((false, _)) => (ndocs - 1 - d) as u64,
+                _ => d as u64,
+            });
             let mut end = 0u32;
             if values.iter().filter(|v| !v.is_empty()).count() >= 2 {
                 multi_valued = true;
@@ -226,8 +243,17 @@ impl Sub for Text {
                 }
                 end = e + 1;
             }
-            wr.add_document(doc).or_fail("add_failed")?;
+            built.push(Some(doc));
         }
+        let mut order: Vec<usize> = (0..ndocs).collect();
+        if let Some((_, salt)) = c.sorted {
+            order.sort_by_key(|i| mix(salt as u64, *i as u64));
+            cx.label("sorted_index");
+        }
+        for i in order {
+            wr.add_document(built[i].take().unwrap()).or_fail("add_failed")?;
+        }
+        drop(built);
         wr.commit().or_fail("commit_failed")?;
         let reader: tantivy::IndexReader = index.reader_builder().reload_policy(ReloadPolicy::Manual).try_into().or_fail("reader_open_failed")?;
         let searcher = reader.searcher();
